@@ -29,4 +29,13 @@ def run(eng, ctx):
     SH.stub_path(eng, ctx, "C15.D4")
     # the property quantifies over socket-backed streams too: the wrapper's FIFO / readline discipline is a shared obligation
     SOCKET.run(eng, ctx)
+    # a frame is "returned" only if its payload decodes: a definition naming an undefined field, or a counter / condition that is not
+    # decoded earlier, makes every frame of that type raise and (in ignore / log mode) silently disappear from the iteration
+    from . import tablerules as TR
+
+    TR.grammar(eng, ctx, "C10.D1")
+    TR.fields_defined(eng, ctx, "C10.D2")
+    TR.scoping(eng, ctx, "C10.D3")
+    TR.dispatch(eng, ctx, "C10.D4")
+    SH.constructor_admission(eng, ctx, "C15.D6")  # every framed payload of >= 2 bytes is admitted by the constructor
     ctx.instance("foreign-protocol branches", 2, 2)
